@@ -12,12 +12,15 @@ const GLONAXD: &str = "/verif/.build/cargo-repo/debug/glonaxd";
 fn networks(cfg: i64) -> Vec<Vec<(&'static str, &'static str, u8)>> {
     match cfg {
         // cfg 8: the receive socket reports one receive error (after a frame has been received) before the request arrives
-        0 | 8 => vec![vec![("laixer", "hcu", 0x4a)]],
+        0 | 8 | 10 => vec![vec![("laixer", "hcu", 0x4a)]],
         1 => vec![vec![("kübler", "encoder", 0x6a), ("kübler", "encoder", 0x6b), ("kübler", "encoder", 0x6c), ("kübler", "encoder", 0x6d), ("kübler", "inclinometer", 0x7a)],
                   vec![("volvo", "d7e", 0x00), ("laixer", "vcu", 0x12), ("laixer", "hcu", 0x4a)]],
         // cfg 7: the same network, but the interface is dead (every write fails) from just before the termination request on
         2 | 7 => vec![vec![("laixer", "hcu", 0x4a), ("kübler", "encoder", 0x6a), ("laixer", "hcu", 0x4b)]],
         3 => vec![vec![("kübler", "inclinometer", 0x7a), ("j1939", "ecu", 0x20)]],
+        // cfg 9: the engine's network stops draining for good before the request (a cycle is parked in a write); the
+        // hydraulic unit's network is healthy: the parked cycle is abandoned, the hydraulic unit gets its reset, exit in time
+        9 => vec![vec![("laixer", "hcu", 0x4a)], vec![("volvo", "d7e", 0x00)]],
         _ => vec![vec![("laixer", "hcu", 0x4a), ("laixer", "vcu", 0x12)]],   // cfg 4: with 100 ms timeouts (silent units); cfg 5: congested bus at start-up; cfg 6: bus stalled for 300 ms right at the signal
     }
 }
@@ -93,6 +96,9 @@ pub fn exec(c: &[i64]) -> Vec<i64> {
         std::thread::sleep(Duration::from_millis(30));
         buses[0].pump();
     }
+    // cfg 9: network 1 stops draining and never recovers
+    if cfg == 9 { buses[1].congest(); std::thread::sleep(Duration::from_millis(150)); }
+    if cfg == 10 { buses[0].congest(); std::thread::sleep(Duration::from_millis(150)); }
     // cfg 7: the interface goes away for good (what BindsTo=...can0.device stops the unit for): nothing can be
     // delivered any more, the daemon still has to stop cleanly inside the budget
     if cfg == 7 { for b in &buses { b.fail_sends(); } std::thread::sleep(Duration::from_millis(20)); }
@@ -107,6 +113,8 @@ pub fn exec(c: &[i64]) -> Vec<i64> {
         std::thread::sleep(Duration::from_millis(3));
     }
     let took = t0.elapsed();
+    if cfg == 9 { buses[1].release(); std::thread::sleep(Duration::from_millis(20)); }
+    if cfg == 10 { buses[0].release(); std::thread::sleep(Duration::from_millis(20)); }
     if status.is_none() { let _ = child.kill(); let _ = child.wait(); }
     // frames after the signal: one motion reset (PGN 45824, 'Z' 'C' FF FF 01) per hydraulic unit
     let mut out = vec![status.map(|s| s.success()).unwrap_or(false) as i64, (status.is_some() && took < Duration::from_secs(5)) as i64];
@@ -131,10 +139,10 @@ pub fn exec(c: &[i64]) -> Vec<i64> {
 pub fn gen(o: &Opts, sink: &mut dyn FnMut(Vec<i64>, String)) {
     let mut k: u64 = 0;
     let mut rng = Rng::new(o.seed, 16);
-    let n = if o.tier_thorough { 270 } else { 27 };
+    let n = if o.tier_thorough { 300 } else { 30 };
     for j in 0..n {
         k += 1; if !mine(o, k) { continue; }
-        let cfg = (j % 9) as i64;
+        let cfg = (j % 10) as i64;
         let delay = *rng.pick(&[0i64, 5, 50, 500, 12, 27]);
         let delay = if !o.tier_thorough && delay == 500 && j % 8 != 0 { 50 } else { delay };
         let delay = if cfg == 4 { 300 } else { delay };     // silent units: longer than their timeout
